@@ -21,6 +21,7 @@ import ast
 import re
 
 from .common import *  # noqa: F401,F403
+from . import defuse as DU
 from .trace import CANON, MF, MG, PL, PR
 from pyvc import lib as L
 
@@ -536,8 +537,34 @@ def entrypoints(u: Unit):
     bad = [s for s in sites if s[0] not in allowed and "processor" in s[2].lower()]
     u.static("entrypoints.no_bypass", not bad, "", f"setattr(...) call sites touching a processor outside Processor.set: {bad}; all setattr sites: {[(a, b) for a, b, _ in sites]}")
     fo = u.fn("pyxel/run.py::apply_overrides")
-    src = ast.unparse(fo.node)
-    u.static("entrypoints.overrides_use_set", "processor.set(key=key, value=value)" in src and "if hasattr(obj, att):" in src, fo.qualname,
-             "apply_overrides: pipeline/detector keys go through Processor.set; running-mode keys are guarded by hasattr")
-    fc = u.fn("pyxel/observation/misc.py::create_new_processor")
-    u.static("entrypoints.sweep_uses_set", "new_processor.set(key=key, value=parameter_dict[key])" in ast.unparse(fc.node), fc.qualname, "create_new_processor applies every parameter through Processor.set")
+    sets = [c for c in DU.calls(fo.node, "set") if ast.unparse(c.func) == "processor.set"]
+    kws = [DU.kw_args(fo.node, c) for c in sets]
+    pos = [DU.pos_args(fo.node, c) for c in sets]
+    through_set = len(sets) >= 1 and all((k.get("key") or (p_[0] if p_ else None)) == "key" and (k.get("value") or (p_[1] if len(p_) > 1 else None)) == "value" for k, p_ in zip(kws, pos))
+    # every setattr on the running mode sits under an `if hasattr(<same object>, <same name>)`
+    guarded = True
+    for node in ast.walk(fo.node):
+        if isinstance(node, ast.If):
+            t = node.test
+            is_guard = isinstance(t, ast.Call) and ast.unparse(t.func) == "hasattr" and len(t.args) == 2
+            for c in ast.walk(ast.Module(body=node.orelse, type_ignores=[])):
+                if isinstance(c, ast.Call) and ast.unparse(c.func) == "setattr" and is_guard:
+                    guarded = False          # setattr in the else-branch of the guard
+    for c in ast.walk(fo.node):
+        if isinstance(c, ast.Call) and ast.unparse(c.func) == "setattr":
+            ok_here = False
+            for node in ast.walk(fo.node):
+                if isinstance(node, ast.If) and isinstance(node.test, ast.Call) and ast.unparse(node.test.func) == "hasattr" and len(node.test.args) == 2 and len(c.args) >= 2 \
+                        and [ast.unparse(a) for a in node.test.args] == [ast.unparse(a) for a in c.args[:2]] and any(c is x for x in ast.walk(ast.Module(body=node.body, type_ignores=[]))):
+                    ok_here = True
+            guarded = guarded and ok_here
+    u.static("entrypoints.overrides_use_set", through_set and guarded, fo.qualname,
+             f"apply_overrides: pipeline/detector keys go through Processor.set(key, value) ({len(sets)} call(s)); running-mode keys are guarded by hasattr: {guarded}")
+
+
+@unit("C08", "sweep")
+def sweep(u: Unit):
+    """create_new_processor / Processor.replace apply every parameter through the real Processor.set on the copy (symbolic
+    execution shared with C06: `*.sets_on_the_copy_only`, `*.same_structure`)."""
+    from . import C06
+    C06.deepcopy_unit(u)
